@@ -61,7 +61,7 @@ def _avail():
 def _settle(before, expect_more):
     """Real-time wait (the scheduler is not involved: only the puppeteer runs) until the kernel has
     delivered the child's write to the reading end and the count is stable."""
-    deadline = _rt.time() + 5
+    deadline = _rt.time() + 60
     last = -1
     stable = 0
     while _rt.time() < deadline:
@@ -224,7 +224,7 @@ def _body(s):
     def read_ack():
         # the puppet answers within microseconds of acting; it depends on nothing the scheduler owns
         buf = b""
-        deadline = _rt.time() + 10
+        deadline = _rt.time() + 90
         while not buf.endswith(b"\n"):
             if _rt.time() > deadline:
                 raise common.ToolError("puppet did not acknowledge")
@@ -256,7 +256,7 @@ def _body(s):
                 _settle(_avail(), False)
             elif a[0] == "x":
                 os.write(ctl_fd, f"x {a[1]}\n".encode())
-                deadline = _rt.time() + 10
+                deadline = _rt.time() + 90
                 while not zombie(info["pid"]):
                     if _rt.time() > deadline:
                         raise common.ToolError("puppet did not exit")
@@ -264,7 +264,7 @@ def _body(s):
         s.point()
 
     def after_spawn():
-        deadline = _rt.time() + 10
+        deadline = _rt.time() + 90
         while not select.select([ack_fd], [], [], 0.5)[0]:
             if _rt.time() > deadline:
                 raise common.ToolError("puppet did not start")
